@@ -105,11 +105,13 @@ Definition parse_z (s : str) : option Z :=
       else option_map Z.of_N (digits_val s 0)
   end.
 (* decimal text with at most `dec` fraction digits -> the number times 10^dec *)
+Fixpoint take_until_dot (l : str) : str :=
+  match l with c :: r => if Ascii.eqb c "."%char then [] else c :: take_until_dot r | [] => [] end.
 Definition parse_fixed (dec : nat) (s : str) : option Z :=
   let '(neg, body) := match s with
                       | c :: r => if Ascii.eqb c "-"%char then (true, r) else if Ascii.eqb c "+"%char then (false, r) else (false, s)
                       | [] => (false, []) end in
-  let ip := (fix take (l : str) := match l with c :: r => if Ascii.eqb c "."%char then [] else c :: take r | [] => [] end) body in
+  let ip := take_until_dot body in
   let rest := skipn (length ip) body in
   let fp := match rest with _ :: f => f | [] => [] end in
   if (length ip =? 0) && (length fp =? 0) then None
